@@ -263,12 +263,18 @@ def fork_call(fn, *args):
             return pickle.load(f)
 
 
+SUBSEED = [0]
+
+
 def subprocess_session(sess, pool, directory):
     with tempfile.TemporaryDirectory(prefix="c15s_") as td:
         jf, of = os.path.join(td, "job.pkl"), os.path.join(td, "out.pkl")
         with open(jf, "wb") as f:
             pickle.dump((sess, pool, directory), f)
-        p = subprocess.run([sys.executable, c14.HERE, "--session", jf, of], capture_output=True, text=True, timeout=300)
+        # a real new interpreter, with a string-hash seed different from the writer's (./check pins 0)
+        SUBSEED[0] += 1
+        p = subprocess.run([sys.executable, c14.HERE, "--session", jf, of], capture_output=True, text=True, timeout=300,
+                           env=dict(os.environ, PYTHONHASHSEED=str(1 + SUBSEED[0] % 3)))
         if p.returncode != 0 or not os.path.exists(of):
             return ("error", (p.stderr or p.stdout)[-1500:])
         with open(of, "rb") as f:
@@ -746,7 +752,7 @@ def run(ctx):
                 sess = reader_session(sc["split"], v)
                 orc = c14.con_lit(r0["new"][0][0], K) if r0["new"] else "(mkCon [] 0%Z [])"
                 if READERS[v].get("auto"):
-                    cfg = "(mkCfg false (split_auto cr) OvFalse %s)" % coq(bool(sess["cache_only"]))
+                    cfg = "(mkCfg false (split_auto cr) OvFalse %s false)" % coq(bool(sess["cache_only"]))
                     auto_l.append("split_auto cr")
                     auto_r.append(coq(bool(r0["split_used"])))
                 else:
